@@ -11,17 +11,22 @@ W="$(mktemp -d /tmp/hpseed.XXXXXX)"; rmdir "$W"
 git -C /repo worktree add -q --detach "$W" HEAD || exit 2
 cleanup() { git -C /repo worktree remove --force "$W" 2>/dev/null; rm -rf "$W"; git -C /repo worktree prune; }
 trap cleanup EXIT
-eval "$(python3 - "$SRC" <<'PY'
+eval "$(python3 - "$SRC" "$P" <<'PY'
 import re,sys,shlex
-src=sys.argv[1]
+src,prop=sys.argv[1],sys.argv[2]
 lines=[l.strip() for l in open(src+'/demo_cmd.txt') if l.strip() and not l.strip().startswith('#')]
 cmd=[l for l in lines if 'go test' in l or 'go run' in l][-1]
 dest=None
-m=re.search(r'cp\s+\S*seed_demo\S*\s+(\S+)\s*&&',cmd)
+m=re.search(r'cp\s+\S*seed\S*_test\.go\s+(\S+)',cmd)
 if m:
-    dest=m.group(1); cmd=cmd[m.end():].strip()
-    dest=dest.rsplit('/',1)[0] if '/' in dest.lstrip('./') or dest.startswith('./') and dest.count('/')>1 else '.'
-    if m.group(1) in ('./seed_demo_test.go','seed_demo_test.go'): dest='.'
+    d=m.group(1)
+    d=re.sub(r'^/tmp/seed\d*/'+prop+'/?','',d)      # absolute path into the agent's worktree -> relative
+    dest=d.rsplit('/',1)[0] if '/' in d else '.'
+    if dest=='' : dest='.'
+# keep only the go test part, drop cp / cd / mkdir preambles
+cmd=cmd[cmd.index('go test') if 'go test' in cmd else cmd.index('go run'):]
+pre=re.findall(r'((?:GOOS|GOARCH)=\S+)',lines[-1])
+cmd=' '.join(pre)+' '+cmd if pre else cmd
 if dest is None:
     toks=cmd.split()
     dest=toks[-1].rstrip('/')
@@ -29,6 +34,7 @@ if dest is None:
 print('DEMO_CMD=%s; PKG=%s' % (shlex.quote(cmd), shlex.quote(dest)))
 PY
 )"
+mkdir -p "$W/$PKG"
 for f in "$SRC"/*_test.go; do [ -f "$f" ] && cp "$f" "$W/$PKG/"; done
 run_demo() { (cd "$W" && eval "$DEMO_CMD") > "$W/.demo.out" 2>&1; }
 run_demo; base=$?
@@ -43,3 +49,4 @@ for c in $CHECKS; do
   res="$res $c=exit$rc[$sig]"
 done
 echo "SEED $P/$K: demo_clean=$base demo_mutated=$mut suite=$suite |$res"
+[ "$suite" != 0 ] && grep -v '^ok\|no test files' "$W/.suite.out" | head -8
